@@ -1,0 +1,90 @@
+//go:build verif
+
+// Error-flow contracts (property C17) for the deductive verification harness
+// in /verif (govc).  Comments only.
+//
+// In the error-flow layer data is abstracted (every call havocs the heap);
+// the ghost flag `fault` becomes true when a storage call returns an error,
+// and parked[o] mirrors "o.err != nil" for the iterator types.  Every
+// function of the package is checked against the generic contract
+//     error result:    !old(fault) && fault ==> err != nil
+//     no error result: fault == old(fault)        (it must not swallow a failure)
+//     parked is changed only at fresh objects
+// unless a contract below says where the failure is recorded instead.
+
+package iavl
+
+// ---- iterators record a failure in their err field (parked) ----
+
+//@ func (*Iterator).Next(iter)
+//@   props C17
+//@   ensures [sticky] old(fault) ==> fault
+//@   ensures [parks] fault && !old(fault) ==> parked[iter]
+//@   modifies fault, parked[iter]
+
+//@ func NewIterator(start, end, ascending, tree) (it)
+//@   props C17
+//@   ensures [fresh] it != nil && fresh(it)
+//@   ensures [sticky] old(fault) ==> fault
+//@   ensures [parks] fault && !old(fault) ==> parked[it]
+//@   modifies fault
+
+//@ func (*NodeIterator).Next(iter, isSkipped)
+//@   props C17
+//@   ensures [sticky] old(fault) ==> fault
+//@   ensures [parks] fault && !old(fault) ==> parked[iter]
+//@   modifies fault, parked[iter]
+
+//@ func (*FastIterator).Next(iter)
+//@   props C17
+//@   ensures [sticky] old(fault) ==> fault
+//@   ensures [parks] fault && !old(fault) ==> parked[iter]
+//@   modifies fault, parked[iter]
+
+//@ func NewFastIterator(start, end, ascending, ndb) (it)
+//@   props C17
+//@   ensures [fresh] it != nil && fresh(it)
+//@   ensures [sticky] old(fault) ==> fault
+//@   ensures [parks] fault && !old(fault) ==> parked[it]
+//@   modifies fault
+
+//@ func (*UnsavedFastIterator).Next(iter)
+//@   props C17
+//@   ensures [sticky] old(fault) ==> fault
+//@   ensures [parks] fault && !old(fault) ==> parked[iter]
+//@   modifies fault, parked[iter]
+
+//@ func NewUnsavedFastIterator(start, end, ascending, ndb, adds, rems) (it)
+//@   props C17
+//@   ensures [fresh] it != nil && fresh(it)
+//@   ensures [sticky] old(fault) ==> fault
+//@   ensures [parks] fault && !old(fault) ==> parked[it]
+//@   modifies fault
+
+// ---- queries without an error result report a failure as "absent" ----
+
+//@ func (*MutableTree).VersionExists(tree, version) (ok)
+//@   props C17
+//@   ensures [sticky] old(fault) ==> fault
+//@   ensures [absent] fault && !old(fault) ==> !ok
+//@   modifies fault
+
+//@ func (*MutableTree).AvailableVersions(tree) (vs)
+//@   props C17
+//@   ensures [sticky] old(fault) ==> fault
+//@   ensures [absent] fault && !old(fault) ==> vs == nil
+//@   modifies fault
+
+// ---- loops driven by an iterator: a failure is parked in the iterator until Error() is consulted ----
+
+//@ func (*nodeDB).traverseRange(ndb, start, end, fn) (err)
+//@   props C17
+//@   ensures [errflow] !old(fault) && fault ==> err != nil
+//@   loop 1 invariant !old(fault) && fault ==> parked[itr]
+//@   modifies fault
+
+//@ func (*MutableTree).enableFastStorageAndCommit(tree) (err)
+//@   props C17
+//@   ensures [errflow] !old(fault) && fault ==> err != nil
+//@   loop 1 invariant !old(fault) && fault ==> parked[itr]
+//@   modifies fault
